@@ -95,6 +95,8 @@ type scenario struct {
 	// explicit call offset (replay / random)
 	K  int `json:"k,omitempty"`
 	K2 int `json:"k2,omitempty"`
+	// long: no macro lines - one line per lower-layer call over the whole history
+	Raw bool `json:"raw,omitempty"`
 }
 
 // ---------------------------------------------------------------- ids of foreign refs
@@ -800,6 +802,7 @@ type packer struct {
 	ps, cs, ms, szs []any
 	raw             [][]gate.Event // the cycles of the open run, should it stay too short to be worth a macro line
 	cycles, runs    int
+	maxNp           int // lines of the largest meta blob uploaded
 }
 
 func (pk *packer) matches(e gate.Event) bool {
@@ -822,8 +825,11 @@ func (pk *packer) matches(e gate.Event) bool {
 	return false
 }
 
+// -longraw: no macro lines (measurement aid: one line per lower-layer call over the whole history)
+var longRaw bool
+
 func (pk *packer) flushRun() {
-	if len(pk.ps) >= 3 {
+	if len(pk.ps) >= 3 && !longRaw {
 		pk.seg.emit(gate.Event{"ev": "recvn", "ps": pk.ps, "cs": pk.cs, "ms": pk.ms, "szs": pk.szs})
 		pk.cycles += len(pk.ps)
 		pk.runs++
@@ -846,6 +852,9 @@ func (pk *packer) flush() {
 }
 
 func (pk *packer) emit(e gate.Event) {
+	if np, ok := e["np"].(int); ok && e["act"] == "metaput" && np > pk.maxNp {
+		pk.maxNp = np
+	}
 	if !pk.matches(e) {
 		pk.flush()
 		if !pk.matches(e) {
@@ -904,12 +913,19 @@ func observeLong(w *world, seg *segment, everyFetch int) {
 		}
 		cur = last
 	}
-	bs := []any{}
+	var bs []int
 	for i, b := range all {
 		if i%everyFetch == 0 {
 			bs = append(bs, b)
 		}
 	}
+	seg.emit(fetchN(w, bs, seg.emit))
+}
+
+// fetchN fetches the blobs bs (a few workers) and reports every result class and size in one line.
+func fetchN(w *world, bs []int, emit func(gate.Event)) gate.Event {
+	w.drain(emit, false)
+	defer w.drain(emit, false) // (index misses of fetches are no part of the trace)
 	outc := make([]any, len(bs))
 	var wg sync.WaitGroup
 	for k := 0; k < 6; k++ {
@@ -917,14 +933,13 @@ func observeLong(w *world, seg *segment, everyFetch int) {
 		go func(k int) {
 			defer wg.Done()
 			for i := k; i < len(bs); i += 6 {
-				ev := w.r.Do(drv.Op{Op: "fetch", B: bs[i].(int)})
+				ev := w.r.Do(drv.Op{Op: "fetch", B: bs[i]})
 				outc[i] = []any{ev["res"], ev["size"]}
 			}
 		}(k)
 	}
 	wg.Wait()
-	w.drain(seg.emit, false)
-	seg.emit(gate.Event{"ev": "fetchn", "bs": bs, "out": outc})
+	return gate.Event{"ev": "fetchn", "bs": intsAny(bs), "out": outc}
 }
 
 func runLong(scn *scenario, rng *rand.Rand) {
@@ -942,26 +957,17 @@ func runLong(scn *scenario, rng *rand.Rand) {
 	seg := &segment{}
 	seg.emit(resetEvent(w, scn, fmt.Sprintf("long/n=%d/restarts=%d", scn.N, len(scn.Restarts)), nil))
 	pk := &packer{seg: seg}
+	longRaw = longRaw || scn.Raw
 	order := rng.Perm(scn.N + 3)[:scn.N]
 	rp := map[int]restartPt{}
 	for _, r := range scn.Restarts {
 		rp[r.At] = r
 	}
 	var got []int
-	maxLines := 0
 	t0 := time.Now()
 	lap := func(k string) {
 		stats["long_ms_"+k] += int(time.Since(t0) / time.Millisecond)
 		t0 = time.Now()
-	}
-	note := func(d *stores.Durable) {
-		for _, br := range d.Mem["r/1"].Refs() {
-			if data, ok := d.Mem["r/1"].Get(br); ok && len(data) > 100000 {
-				if n := len(w.metaEntries(d, br.String())); n > maxLines {
-					maxLines = n
-				}
-			}
-		}
 	}
 	for i, bi := range order {
 		rank := u.Blobs[bi].Rank
@@ -981,7 +987,12 @@ func runLong(scn *scenario, rng *rand.Rand) {
 		if n%1000 == 500 {
 			// the map semantics while the history grows
 			pk.flush()
-			for _, op := range []drv.Op{{Op: "fetch", B: got[rng.Intn(len(got))]}, {Op: "enum", After: 2 * rng.Intn(len(u.Blobs)), Limit: 1 + rng.Intn(5)},
+			fb := []int{got[rng.Intn(len(got))], rank, got[0]}
+			for _, bi2 := range rng.Perm(len(u.Blobs))[:2] {
+				fb = append(fb, u.Blobs[bi2].Rank) // most likely not received yet
+			}
+			pk.emit(fetchN(w, fb, pk.emit))
+			for _, op := range []drv.Op{{Op: "enum", After: 2 * rng.Intn(len(u.Blobs)), Limit: 1 + rng.Intn(5)},
 				{Op: "stat", Bs: []int{rank, got[rng.Intn(len(got))], u.Blobs[order[(i+1)%len(order)]].Rank}}} {
 				if op.Op == "stat" && (op.Bs[0] == op.Bs[1] || op.Bs[1] == op.Bs[2]) {
 					op.Bs = op.Bs[:1]
@@ -995,7 +1006,6 @@ func runLong(scn *scenario, rng *rand.Rand) {
 			waitQuiet()
 			w.drain(pk.emit, false)
 			pk.flush()
-			note(w.dur)
 			lap("receives")
 			seg.emit(scan.scan(w.dur, fmt.Sprintf("before-restart@%d", n)))
 			lap("leak")
@@ -1019,7 +1029,6 @@ func runLong(scn *scenario, rng *rand.Rand) {
 	waitQuiet()
 	w.drain(pk.emit, false)
 	pk.flush()
-	note(w.dur)
 	lap("receives")
 	seg.emit(scan.scan(w.dur, "end"))
 	lap("leak")
@@ -1040,12 +1049,13 @@ func runLong(scn *scenario, rng *rand.Rand) {
 	}
 	seg.flush()
 	lap("write")
-	stats["long_max_lines_in_a_meta_blob"] = max(stats["long_max_lines_in_a_meta_blob"], maxLines)
+	stats["long_max_lines_in_a_meta_blob"] = max(stats["long_max_lines_in_a_meta_blob"], pk.maxNp)
 	stats["long_cycles_in_macro_lines"] += pk.cycles
 	stats["long_macro_lines"] += pk.runs
-	cls := "long/packed<=full"
-	if maxLines > encrypt.FullMetaBlobSize {
-		cls = "long/packed>full"
+	// the largest meta blob uploaded: once it has Full - Limit lines the next compaction has more than Full lines to deal with
+	cls := "long/below-full"
+	if pk.maxNp >= encrypt.FullMetaBlobSize-encrypt.SmallMetaCountLimit {
+		cls = "long/reached-full"
 	}
 	classes[fmt.Sprintf("%s/n=%d/r=%d", cls, scn.N, len(scn.Restarts))]++
 }
@@ -1637,6 +1647,7 @@ func main() {
 	sc := flag.String("scratch", "", "scratch dir")
 	verbose := flag.Bool("v", false, "perkeep logs to stderr")
 	limit := flag.Bool("limit", false, "print the code's compaction threshold (encrypt.SmallMetaCountLimit) and exit")
+	flag.BoolVar(&longRaw, "longraw", false, "long family without macro lines (measurement aid)")
 	prof := flag.String("cpuprofile", "", "write a CPU profile (development aid)")
 	flag.Parse()
 	if *prof != "" {
